@@ -8,6 +8,9 @@ props = [json.loads(l) for l in open(os.path.join(VERIF, "properties.jsonl"))]
 
 # id -> (engine, technique, level text, level note, design ref)
 CHECKS = {
+    "C01": ("pbt-programs", "Hypothesis-generated ordered unit pairs with model-different dimensions (near misses, independent trees, special pairs) x ~70 operations: negative compile probe (must fail) paired with a positive twin (must compile), plus positive trait TUs that must compile and answer no (Quantity and QuantityPoint, both directions, non-zero origins)",
+            "Exploration: fixed grid (every operation x 5 unit pairs) plus random pairs, rotating over the six compiler/standard configurations (thorough: all six).",
+            "trusts the model's dimension vectors; a probe only counts when its twin compiled in the same configuration", "4/C01"),
     "C02": ("pbt-programs", "Hypothesis-generated unit expression trees in five spellings, compiled as static_assert batches: is_same of DimT/MagT against model-spelled canonical types, equivalence/ratio predicates on pairs built equal-by-another-route or as near misses, type identity of permuted products",
             "Exploration: a fixed grid (every library unit x 5 spellings, every derived unit against its physical definition, every prefix) plus thousands of random trees/pairs per run, each judged individually under rotating (thorough: all six) compiler configurations. No completeness over all expression trees.",
             "trusts the independently written unit table (auverif/model.py), Python Fractions, and the compilers' static_assert verdicts", "4/C02"),
